@@ -120,6 +120,7 @@ ohaszero = z3.Function('ohaszero', OSeq, Bool)
 onormal = z3.Function('onormal', OSeq, Bool)          # every constraint: coefficients >= 0, op in {>=, ==}
 
 
+implchain = z3.Function('implchain', ISeq, CSeq)       # [[-X[i-1], X[i]] for i in 1..len-1]: the implication chain X[0] -> X[1] -> ...
 ishift = z3.Function('ishift', ISeq, Int, ISeq)        # every element plus a constant  (variables x(p) = offset + p of a block)
 preds = z3.Function('preds', Int, Int, ISeq)           # predecessors of vertex v in the abstract digraph gid
 outdeg = z3.Function('outdeg', Int, Int, Int)          # out-degree of vertex v
@@ -165,7 +166,7 @@ FUNCS = dict(tlen=tlen, tcoef=tcoef, tlit=tlit, tunit=tunit, tnegc=tnegc, tset=t
              ilen=ilen, iget=iget, inil=inil, isnoc=isnoc, iapp=iapp, ineg=ineg, haszero=haszero,
              maxof=maxof, minof=minof, maxabs=maxabs, lit_true=lit_true, count=count, ctrue=ctrue,
              clen=clen, cget=cget, cnil=cnil, csnoc=csnoc, capp=capp, ctake=ctake, combs=combs, sat=sat,
-             cmaxabs=cmaxabs, pow2=pow2, chaszero=chaszero, psum=psum, card2=card2, isperm=isperm, sortedperm=sortedperm, invperm=invperm, imapsub=imapsub, zpos=zpos, mpos=mpos, rnbrs=rnbrs, apseq=apseq, negunits=negunits, idxcombs=idxcombs, iflip1=iflip1, iflips=iflips, neqprefix=neqprefix, signvecs=signvecs, sprod=sprod, smul=smul, pfilter=pfilter, ishift=ishift, preds=preds, outdeg=outdeg, gtopo=gtopo, gsinkok=gsinkok,
+             cmaxabs=cmaxabs, pow2=pow2, chaszero=chaszero, psum=psum, card2=card2, isperm=isperm, sortedperm=sortedperm, invperm=invperm, imapsub=imapsub, zpos=zpos, mpos=mpos, rnbrs=rnbrs, apseq=apseq, negunits=negunits, idxcombs=idxcombs, iflip1=iflip1, iflips=iflips, neqprefix=neqprefix, signvecs=signvecs, sprod=sprod, smul=smul, pfilter=pfilter, implchain=implchain, ishift=ishift, preds=preds, outdeg=outdeg, gtopo=gtopo, gsinkok=gsinkok,
              ev3=ev3, dropc=dropc, dterms=dterms, dcons=dcons, tevent=tevent, cevent=cevent, dlits=dlits, dclauses=dclauses, levent=levent, gad=gad, cdist_tab=cdist_tab, cdist=cdist, cdistall=cdistall, cind=cind, satind=satind, aind=aind)
 
 
@@ -319,6 +320,10 @@ def _on_terms(terms_by_decl):
     for (s, k) in terms_by_decl.get('combs', []):
         out.append(cmaxabs(combs(s, k)) <= maxabs(s))
         out.append(z3.Implies(z3.Not(haszero(s)), z3.Not(chaszero(combs(s, k)))))
+    for (X,) in terms_by_decl.get('implchain', []):
+        # Seq.lean implchain_*: n-1 two-literal clauses over the literals of X
+        out += [z3.Implies(ilen(X) >= 1, clen(implchain(X)) == ilen(X) - 1), cmaxabs(implchain(X)) <= maxabs(X),
+                z3.Implies(z3.Not(haszero(X)), z3.Not(chaszero(implchain(X))))]
     for (sq, o) in terms_by_decl.get('ishift', []):
         # Seq.lean ishift_*: length, no zero / bounded when the elements are positive and the offset non-negative, identity
         t = ishift(sq, o)
@@ -698,6 +703,12 @@ def _sem_on_terms(asgs, terms_by_decl):
             if z3.is_app(b0) and b0.decl().name() == 'aind' and b0.arg(0).eq(a):
                 # definition of the induced assignment on variables
                 out.append(z3.Implies(l > 0, lit_true(b0, l) == sat(a, gad(b0.arg(1), l))))
+        for (X,) in terms_by_decl.get('implchain', []):
+            # Subst.lean allequal_cycle: the chain X[0] -> ... -> X[n-1] closed by X[n-1] -> X[0] holds iff all literals agree
+            n = ilen(X)
+            out.append(z3.Implies(z3.And(n >= 1, z3.Not(haszero(X))),
+                                  z3.And(z3.Or(lit_true(a, iget(X, 0)), z3.Not(lit_true(a, iget(X, n - 1)))), sat(a, implchain(X)))
+                                  == z3.Or(count(a, X) == 0, count(a, X) == n)))
         for (gid,) in terms_by_decl.get('gtopo', []):
             # L12 (Pebbling.lean pebbling_unsat, contrapositive with a Skolem vertex): on a topologically sorted DAG with at
             # least one vertex whose sink view agrees with the predecessor lists, some vertex violates its pebbling axiom
